@@ -28,7 +28,7 @@ structure Rules where
 
 /-- the declared subtype relation on thrown values -/
 def TypeOk (G : Graph) : Thrown → Name → Prop
-  | .obj c _, ty => Spec.Hier.IsA G c ty
+  | .obj n _, ty => ∃ c, getClass G n = some c ∧ Spec.Hier.IsA G c ty
   | .internal, ty => ty = throwableName ∨ ty = exceptionName ∨ ty = errorName
 
 /-- `R` decides the hierarchy `G` -/
@@ -139,10 +139,65 @@ def supers (G : Graph) (c : Cls) : List Name :=
   let start := [c.name] ++ c.ext.toList ++ c.impl
   (List.range (G.classes.length + G.ifaces.length + 1)).foldl (fun acc _ => superStep G acc) start
 
+/-- every declared class that is an `Exception` (or an `Error`) is a `Throwable` (std declares
+`Exception implements Throwable`); makes the `Throwable` fallback of `catchTypeMatches` harmless (C08) -/
+def ThrowableRooted (G : Graph) : Prop := ∀ n c, getClass G n = some c → Spec.Hier.ThrowableOK G c
+
 def subByClosure (G : Graph) : Thrown → Name → Bool
-  | .obj c _, ty => (supers G c).contains ty
+  | .obj n _, ty =>
+    match getClass G n with
+    | some c => (supers G c).contains ty
+    | none => false
   | .internal, ty => ty == throwableName || ty == exceptionName || ty == errorName
 
 def rulesOf (G : Graph) : Rules := ⟨subByClosure G, Model.Exc.thrownNew G⟩
+
+/-! ### vocabulary for "finally exactly once" -/
+
+mutual
+/-- a `try` numbered `i` occurs in the statement -/
+def mentionsS (i : Nat) : Stmt → Bool
+  | .loop _ b => mentionsB i b
+  | .call b => mentionsB i b
+  | .try_ j b cs _ fin => j == i || mentionsB i b || mentionsC i cs || mentionsB i fin
+  | _ => false
+def mentionsB (i : Nat) : Block → Bool
+  | .nil => false
+  | .cons s r => mentionsS i s || mentionsB i r
+def mentionsC (i : Nat) : Catches → Bool
+  | .nil => false
+  | .cons _ b r => mentionsB i b || mentionsC i r
+end
+
+mutual
+/-- every `try` numbered `i` has a `finally` block and does not contain another `try` numbered `i`
+(numbers identify `try` statements: the generator gives every `try` its own) -/
+def goodS (i : Nat) : Stmt → Bool
+  | .loop _ b => goodB i b
+  | .call b => goodB i b
+  | .try_ j b cs hasFin fin =>
+    (if j == i then hasFin && !mentionsB i b && !mentionsC i cs && !mentionsB i fin else true)
+      && goodB i b && goodC i cs && goodB i fin
+  | _ => true
+def goodB (i : Nat) : Block → Bool
+  | .nil => true
+  | .cons s r => goodS i s && goodB i r
+def goodC (i : Nat) : Catches → Bool
+  | .nil => true
+  | .cons _ b r => goodB i b && goodC i r
+end
+
+def isTryEv (i : Nat) : Ev → Bool
+  | .enterTry j => j == i
+  | .enterFinally j => j == i
+  | _ => false
+
+/-- the events of try `i` in a trace, in order -/
+def proj (i : Nat) (tr : List Ev) : List Ev := tr.filter (isTryEv i)
+
+/-- `enterTry i, enterFinally i` repeated: every entry into try `i` is followed by exactly one entry into its
+finally block before the next entry (or the end) -/
+def Alternates (i : Nat) (l : List Ev) : Prop :=
+  ∃ n, l = (List.replicate n [Ev.enterTry i, Ev.enterFinally i]).flatten
 
 end Spec.Exc
